@@ -336,6 +336,13 @@ func (evm *EVM) Call(ctx context.Context, caller ethvm.ContractRef, addr common.
 						preCallResult.Err = ErrOutOfGas
 					}
 
+					// A failed pre-call join point fails the frame like any other error:
+					// undo the value transfer (and account creation) done above and
+					// forfeit the remaining gas unless the failure is a revert.
+					evm.StateDB.RevertToSnapshot(snapshot)
+					if preCallResult.Err != ErrExecutionReverted {
+						preCallResult.Gas = 0
+					}
 					return preCallResult.Ret, preCallResult.Gas, preCallResult.Err
 				}
 
